@@ -15,7 +15,7 @@ from vlib import SPEC
 
 CTX_MS = 4000       # context of API calls that are expected to be answered or to end with Close
 EXPIRE_MS = 600     # context of the calls the script lets expire
-SETTLE_MS = 150
+SETTLE_MS = 250    # settle point: no event at all for this long (generous: delivery inside the client takes microseconds)
 
 CFG = """SPECIFICATION Spec
 CONSTANTS
@@ -83,8 +83,7 @@ def to_scenario(sid, script, conn=None, rules=None, params=None, settle_ms=None)
     """script: list of env ops (see module doc); returns a harness scenario (kind iscp)."""
     steps = [{"a": "connect", "must": True}, {"a": "callAckMode", "mode": "manual"}]
     if settle_ms is None:
-        # with a keep-alive period of 100 ms the trace is never silent for 150 ms
-        settle_ms = 70 if (conn or {}).get("pingMs") else SETTLE_MS
+        settle_ms = SETTLE_MS
     for r in rules or []:
         steps.append({"a": "rule", "rule": r})
     expiring = {op["tag"] for op in script if op["a"] == "expire"}
@@ -140,7 +139,8 @@ def to_scenario(sid, script, conn=None, rules=None, params=None, settle_ms=None)
             steps.append({"a": "sleep", "ms": op["ms"]})
         elif a == "close":
             break
-    steps += [{"a": "quiesce", "ms": settle_ms}, {"a": "closeConn", "g": "main2", "wait": True, "ctxMs": 2000}, {"a": "quiesce", "ms": 50}]
+    # settle (harness/h/steps_e2e.go): a window without events (keep-alive traffic ignored) in which the process was demonstrably scheduled
+    steps += [{"a": "settle", "ms": settle_ms}, {"a": "closeConn", "g": "main2", "wait": True, "ctxMs": 2000}, {"a": "quiesce", "ms": 50}]
     sc = {"id": sid, "kind": "iscp", "conn": conn or {}, "wdMs": 6000, "steps": steps}
     if params:
         sc["p"] = params
